@@ -30,7 +30,9 @@ package cluster
 import (
 	"encoding/json"
 	"fmt"
+	"os"
 	"sort"
+	"strconv"
 	"strings"
 	"testing"
 	"time"
@@ -444,6 +446,15 @@ func c34Exec(t *testing.T) func(hist []c34Op) vsched.StepResult {
 	}
 }
 
+var c34Start = time.Now()
+
+func c34Budget() float64 {
+	if f, err := strconv.ParseFloat(os.Getenv("VERIF_BUDGET_S"), 64); err == nil && f > 0 {
+		return f
+	}
+	return 3600
+}
+
 func TestVerifC34(t *testing.T) {
 	defer vsched.Finish(t)
 	r := vsched.Rep()
@@ -467,7 +478,13 @@ func TestVerifC34(t *testing.T) {
 		for _, p := range sc.peers {
 			peers = append(peers, c34Name(p))
 		}
-		vsched.BFS(vsched.BFSConfig{Scenario: sc.name, Depth: sc.depth, ShardFirstOp: true,
+		// the first scenario may use at most 60% of the wall budget, so that an overloaded machine
+		// does not starve the second one (a deadline only lowers coverage: exhaustive=false)
+		var dl time.Time
+		if sc.self {
+			dl = c34Start.Add(time.Duration(0.6 * c34Budget() * float64(time.Second)))
+		}
+		vsched.BFS(vsched.BFSConfig{Scenario: sc.name, Depth: sc.depth, ShardFirstOp: true, Deadline: dl,
 			Params: map[string]any{"peers": peers, "epochs": sc.epochs, "timeout": nodeLeftEmitTimeout.String(), "alphabet": names}},
 			func([]c34Op) []c34Op { return alpha }, c34Exec(t), func(o c34Op) string { return o.String() })
 	}
